@@ -295,6 +295,42 @@ func init() {
 			}
 			return TupleV{ex.ctx.F64Const(0), ex.ctx.False}
 		},
+		// verifRecText(n, vals...): an opaque text of n fresh characters that stands for the record vals;
+		// verifRecLookup(text, i) recovers field i from exactly that text (contract model of a formatter / parser pair).
+		"verif:verifRecText": func(ex *Exec, st *State, fn *ssa.Function, args []Value) Value {
+			n := int(ex.concretize(st, args[0].(*Term)))
+			chars := make([]*Term, n)
+			for i := range chars {
+				ex.b64seq++
+				chars[i] = ex.ctx.Var(fmt.Sprintf("txtc%d", ex.b64seq), BV(8))
+			}
+			var rec []*Term
+			for _, v := range ex.sliceElems(st, args[1].(SliceV)) {
+				rec = append(rec, v.(*Term))
+			}
+			st.b64 = append(st.b64, b64Pair{chars: chars, rec: rec})
+			return StringV{B: chars}
+		},
+		"verif:verifRecLookup": func(ex *Exec, st *State, fn *ssa.Function, args []Value) Value {
+			s := args[0].(StringV)
+			i := int(ex.concretize(st, args[1].(*Term)))
+			for _, p := range st.b64 {
+				if p.rec == nil || len(p.chars) != len(s.B) {
+					continue
+				}
+				same := true
+				for k := range s.B {
+					if s.B[k] != p.chars[k] {
+						same = false
+						break
+					}
+				}
+				if same {
+					return TupleV{p.rec[i], ex.ctx.True}
+				}
+			}
+			return TupleV{ex.ctx.BVConst(64, 0), ex.ctx.False}
+		},
 		// verifNoGlobalWritesExcept("pkg.var,pkg.var2"): no package-level variable of the module (nor an object reachable
 		// from one at the end of init) other than the listed ones has been written on this path since init.
 		"verif:verifNoGlobalWritesExcept": func(ex *Exec, st *State, fn *ssa.Function, args []Value) Value {
@@ -407,6 +443,25 @@ func init() {
 		},
 		"(time.Time).UnixNano": func(ex *Exec, st *State, fn *ssa.Function, args []Value) Value {
 			return timeNs(args[0])
+		},
+		// zone offset (seconds east of UTC) is kept in the otherwise unused wall field of the model
+		"verif:verifTimeWithZone": func(ex *Exec, st *State, fn *ssa.Function, args []Value) Value {
+			return &StructV{F: []Value{args[1].(*Term), timeNs(args[0]), PtrV{}}}
+		},
+		"verif:verifTimeZoneOffset": func(ex *Exec, st *State, fn *ssa.Function, args []Value) Value {
+			return args[0].(*StructV).F[0]
+		},
+		"(time.Time).UTC": func(ex *Exec, st *State, fn *ssa.Function, args []Value) Value {
+			return timeFromNs(ex, timeNs(args[0]))
+		},
+		"(time.Time).Unix": func(ex *Exec, st *State, fn *ssa.Function, args []Value) Value {
+			c := ex.ctx
+			ns := timeNs(args[0])
+			// floor division (instants before 1970 are negative)
+			k := c.BVConst(64, 1000000000)
+			q := c.BvBin(OBvSDiv, ns, k)
+			r := c.BvBin(OBvSRem, ns, k)
+			return c.Ite(c.BvCmp(OBvSLt, r, c.BVConst(64, 0)), c.BvBin(OBvSub, q, c.BVConst(64, 1)), q)
 		},
 		"verif:verifTimeFromUnixNano": func(ex *Exec, st *State, fn *ssa.Function, args []Value) Value {
 			return timeFromNs(ex, args[0].(*Term))
